@@ -1,0 +1,55 @@
+//! Child module of `crate::ser` (declared there with `#[path]` under the `verif_hooks` feature) so that
+//! the private helpers of `YamlSerializer` and the key sink can be called one by one.
+//! Add-only: nothing here is used by the crate itself.
+#![allow(missing_docs, dead_code, clippy::all)]
+use super::*;
+
+fn fresh<R>(f: impl FnOnce(&mut YamlSerializer<'_, String>) -> Result<R>) -> Option<String> {
+    let mut out = String::new();
+    {
+        let mut y = YamlSerializer::new(&mut out);
+        // fragments are observed without the `%YAML 1.2` preamble / indentation logic
+        y.at_line_start = false;
+        y.doc_started = true;
+        f(&mut y).ok()?;
+    }
+    Some(out)
+}
+
+/// `YamlSerializer::write_quoted`
+pub fn write_quoted(s: &str) -> Option<String> {
+    fresh(|y| y.write_quoted(s))
+}
+/// `YamlSerializer::write_single_quoted`
+pub fn write_single_quoted(s: &str) -> Option<String> {
+    fresh(|y| y.write_single_quoted(s))
+}
+/// `YamlSerializer::needs_double_quotes`
+pub fn needs_double_quotes(s: &str) -> bool {
+    YamlSerializer::<String>::needs_double_quotes(s)
+}
+/// `YamlSerializer::write_plain_or_quoted` (key-like position: variant names)
+pub fn write_plain_or_quoted(s: &str, quote_all: bool, yaml_12: bool) -> Option<String> {
+    fresh(|y| {
+        y.quote_all = quote_all;
+        y.yaml_12 = yaml_12;
+        y.write_plain_or_quoted(s)
+    })
+}
+/// `YamlSerializer::write_plain_or_quoted_value`
+pub fn write_plain_or_quoted_value(s: &str, quote_all: bool, yaml_12: bool, in_flow: bool) -> Option<String> {
+    fresh(|y| {
+        y.quote_all = quote_all;
+        y.yaml_12 = yaml_12;
+        y.in_flow = if in_flow { 1 } else { 0 };
+        y.write_plain_or_quoted_value(s)
+    })
+}
+/// `scalar_key_to_string` for a `&str` key (the `KeyScalarSink::serialize_str` path)
+pub fn key_sink_str(s: &str, yaml_12: bool) -> Option<String> {
+    scalar_key_to_string(s, yaml_12).ok()
+}
+/// `scalar_key_to_string` for an arbitrary serializable key
+pub fn key_sink<K: Serialize + ?Sized>(k: &K, yaml_12: bool) -> Option<String> {
+    scalar_key_to_string(k, yaml_12).ok()
+}
